@@ -128,6 +128,22 @@ class Check:
                 rule['dir'] = rng.choice(['bin2', f'share/l{i}', '/usr/links'])
                 rule['tag'] = rng.choice(tagset)
             spec['rules'].append(rule)
+        # some symlinks point at a directory (or a file) that the same project installs
+        for rule in spec['rules']:
+            if rule['kind'] != 'symlink' or rng.random() >= 0.5:
+                continue
+            dirs = [r_ for r_ in spec['rules'] if r_['kind'] == 'emptydir' and not r_['path'].startswith('/') and not r_.get('sub')]
+            datas = [r_ for r_ in spec['rules'] if r_['kind'] == 'data' and r_.get('dir') and not r_['dir'].startswith('/') and not r_.get('sub') and not r_.get('rename')]
+            if dirs and rng.random() < 0.6:
+                d = rng.choice(dirs)
+                rule['dir'] = os.path.dirname(d['path']) or '.'
+                rule['target'] = os.path.basename(d['path'])
+                rule['tag'] = d.get('tag')
+            elif datas:
+                d = rng.choice(datas)
+                rule['dir'] = d['dir']
+                rule['target'] = os.path.basename(d['files'][0]['name'])
+                rule['tag'] = d.get('tag')
         # destination paths must not collide (two rules installing the same path is a project bug, not what is tested)
         seen: T.Set[str] = set()
         uniq_rules = []
